@@ -50,25 +50,30 @@ undefine_unused = Unit(
 undefine_unused.key_suffix = "underscore-loop"
 
 
-def slice_duplicates_loop(fn):
-    """the loop over groups of equivalent functions that fills `delete` / `renamings`"""
+def slice_duplicate_group(fn):
+    """inside the loop over groups of equivalent functions: from `preserved_nodes = {...}` to the loop that marks the others for deletion"""
     import ast as _ast
+    from pyvc.unit import NotGenerated
     for st in fn.body:
         if isinstance(st, _ast.For) and "function_defs.values()" in _ast.unparse(st.iter):
-            return [st], "duplicate-groups"
-    from pyvc.unit import NotGenerated
-    raise NotGenerated("remove_duplicate_functions: loop over function_defs.values() not found")
+            idx = [k for k, b in enumerate(st.body) if isinstance(b, _ast.Assign) and _ast.unparse(b.targets[0]) == "preserved_nodes"]
+            if idx:
+                return st.body[idx[0]:], "duplicate-group"
+    raise NotGenerated("remove_duplicate_functions: `preserved_nodes = ...` inside the loop over function_defs.values() not found")
 
 
 remove_duplicates = Unit(
-    "fixes", "remove_duplicate_functions", slice=slice_duplicates_loop,
-    params={"preserve": ("set", "str"), "function_defs": "obj", "delete": ("set", "obj"), "renamings": "obj", "definitions": "obj", "fixed_names": "obj", "assigned_names": "obj"},
-    requires=[("nothing-marked-yet", "forall_obj(lambda d: d not in delete)")],
-    ensures=[("a-deleted-duplicate-is-not-preserved", "forall_obj(lambda d: implies(d in delete, d.name not in preserve))")],
-    loops={0: {"inv": ["forall_obj(lambda d: implies(d in delete, d.name not in preserve))"]},
-           1: {"inv": ["forall_obj(lambda d: implies(d in delete, d.name not in preserve))"]}},
+    "fixes", "remove_duplicate_functions", slice=slice_duplicate_group,
+    params={"preserve": ("set", "str"), "funcdefs": ("seq", "obj"), "delete": ("set", "obj"), "renamings": "obj"},
+    requires=[("group-has-members", "len(funcdefs) >= 1"),
+              ("nothing-preserved-is-marked-yet", "forall(lambda k: implies(0 <= k and k < len(funcdefs), funcdefs[k] not in delete))")],
+    ensures=[("a-duplicate-marked-for-deletion-is-not-preserved",
+              "forall(lambda k: implies(0 <= k and k < len(funcdefs) and funcdefs[k] in delete, funcdefs[k].name not in preserve))")],
+    loops={0: {"inv": ["forall(lambda k: implies(0 <= k and k < len(funcdefs) and funcdefs[k] in delete, funcdefs[k].name not in preserve))"]}},
     attrs={"name": "str", "lineno": "int"}, lenient=True, props=("C07", "C08", "C19"), covers=False,
-    note="the set difference `funcdefs - preserved_nodes` is abstracted (lenient): the obligation is discharged from the definition of preserved_nodes only if the executor can carry it; otherwise undecided",
+    subscript_store={"VObj": lambda eng, base, key, val, pc, line: base},
+    note="funcdefs (one group of equivalent functions) is a sequence of distinct nodes; `renamings[...] = ...` is dropped (no effect on `delete`)",
 )
+remove_duplicates.key_suffix = "duplicate-group"
 
 UNITS = [delete_unused, align_names, undefine_unused, remove_duplicates]
